@@ -78,7 +78,7 @@ func runC04(c *Ctx) {
 	}
 	runBigC04(c)
 	c.Meta(map[string]interface{}{
-		"rule":    "(large values: one object with an unindexed field of 0 .. 1 MiB+7 bytes (thorough up to 3 MiB), repetitive and pseudo-random content, 4 (6) configurations incl. compression: read back identically by the live handle, by a new handle twice, through Get, All and an unindexed search, and after Repair rebuilt the lost index.) at every state reached by BFS (contents + key alphabet, value tables with 2^53+1, MaxInt64, MaxUint64, ns timestamps) the complete observation vector (all reads, every field x operator x probe with result order on indexed fields, AssignIndex, And/Or pairs) is taken, the handle is closed (or, in synchronous configurations, abandoned) and a new one opened on the same directory, and the vector must be identical; reopen/abandon are also alphabet letters so later calls must keep refining the reference. Non-trivial = distinct non-empty observation vectors compared.",
+		"rule":    "(large values: one object with an unindexed field of 0 .. 1 MiB+7 bytes (thorough up to 3 MiB; one compressed object of 33 MiB), repetitive and pseudo-random content, 4 (6) configurations incl. compression: read back identically by the live handle, by a new handle twice, through Get, All and an unindexed search, and after Repair rebuilt the lost index.) at every state reached by BFS (contents + key alphabet, value tables with 2^53+1, MaxInt64, MaxUint64, ns timestamps) the complete observation vector (all reads, every field x operator x probe with result order on indexed fields, AssignIndex, And/Or pairs) is taken, the handle is closed (or, in synchronous configurations, abandoned) and a new one opened on the same directory, and the vector must be identical; reopen/abandon are also alphabet letters so later calls must keep refining the reference. Non-trivial = distinct non-empty observation vectors compared.",
 		"configs": cfgs, "depth": depth,
 	})
 }
